@@ -94,7 +94,7 @@ whiledo   : WHILE cond DO pstmts END_WHILE
 loopstmt  : LOOP pstmts END_LOOP
 forloop   : FOR NAME IN NUM .. NUM LOOP pstmts END_LOOP
 whileloop : WHILE cond LOOP pstmts END_LOOP
-casestmt  : CASE swhens END CASE | CASE xexpr swhens END CASE
+casestmt  : CASE swhens END_CASE | CASE xexpr swhens END_CASE
 swhens    : swhen | swhens swhen
 swhen     : WHEN xcond THEN pstmts
 '''
@@ -166,8 +166,10 @@ def build_grammar():
         fam.setdefault(l, {'TOP', 'XB'})
     for l, r in proc:
         rules.append((l, r))
-        fam.setdefault(l, {'BODY'})
-    fam['block'] = {'PROC0', 'BODY'}
+        # BODY: statement level of a body outside any CASE statement; BODYC: inside the branches of a CASE statement
+        # (the CASE counter is >= 1 there)
+        fam.setdefault(l, {'BODY', 'BODYC'})
+    fam['block'] = {'PROC0', 'BODY', 'BODYC'}
     for l, r in parse_rules(TOPLEVEL):
         if l in ('plain_terminated', 'proc_terminated', 'proc_declare'):
             continue
@@ -265,6 +267,9 @@ class ProductionChecker:
             cs += [zz('_is_create'), zz('_begin_depth') >= 1, z3.Not(zz('_in_declare')), zz('level') >= 1, anycase]
         elif fam == 'BODY':     # procedural statement level inside a body
             cs += [zz('_is_create'), zz('_begin_depth') >= 1, z3.Not(zz('_in_declare')), zz('level') >= 1, nocase,
+                   z3.Not(hdr), z3.Not(ddl)]
+        elif fam == 'BODYC':    # procedural statement level inside a branch of a CASE statement
+            cs += [zz('_is_create'), zz('_begin_depth') >= 1, z3.Not(zz('_in_declare')), zz('level') >= 1, anycase,
                    z3.Not(hdr), z3.Not(ddl)]
         elif fam == 'RESET':
             cs += [zz('_begin_depth') == 0, z3.Not(zz('_in_declare')), zz('level') == 0, nocase,
